@@ -62,7 +62,7 @@ RULE_SCHED = (
 ASSUMPTIONS = [
     "schedulers: arms in {1,2,3} (thorough also 4), 3*arms+3 rounds, feedback alphabet {-1,0,2} for <=2 arms "
     "and {0,2} for 3 arms in the quick tier ({-1,0,2} for 3 arms, {0,2} for 4 arms in thorough); "
-    "hyper-parameters (upper bound, gamma, zeta) from a 2-3 element list, not a continuum",
+    "hyper-parameters (upper bound, gamma, zeta): 2 (quick; thorough with 3 arms) or 3 fixed settings, not a continuum",
     "the 250-step window of DUCB is far beyond the exhaustive depth bound; it is exercised only by one long "
     "deterministic non-stationary trace per UCB selector and gamma in {hp gamma, 1.0} (NOT exhaustive)",
     "the initial phase of the discounted-UCB schedulers is taken as 2*arms rounds (mapb.DUCB) and 3*arms "
@@ -111,6 +111,8 @@ def sched_items(tier, seed):
             if name not in UCB and hi > 0:
                 continue  # hyper-parameters are ignored by these selectors
             for arms in arms_list:
+                if tier != "quick" and arms == 3 and hi != seed % 3 and hi != (seed + 1) % 3:
+                    continue  # 3 arms x 3 feedback values (531 441 sequences) for two of the three settings
                 if tier == "quick":
                     alpha = [-1.0, 0.0, 2.0] if arms <= 2 else [0.0, 2.0]
                 else:
@@ -400,8 +402,8 @@ def work_dfs(item, col):
             raise RuntimeError(f"fresh replay of {fb} diverged from the explored branch: {got} vs {plays}")
         validated += 1
     col.graph(stats["states"], stats["transitions"], validated, depth)
-    if stats["leaves"] and not item["prefix"] and "full_depth" not in item:
-        fb, plays = stats["leaves"][-1]
+    if stats["leaves"] and name in UCB and n >= 2 and "full_depth" not in item:
+        fb, plays = stats["leaves"][(2 * len(stats["leaves"])) // 3]
         col.sample(dict(selector=name, arms=n, hp=hp, feedback=[alpha[i] for i in fb], selections=list(plays)))
 
 
@@ -722,7 +724,8 @@ def run_one(item, col, lengths, budget_cfg):
     detail = dict(config=cfg, executed_per_task=per_task, executed_total=executed, trainer_calls=probe.calls[:14])
     if wrong:
         detail["trainer_calls_with_wrong_returned_counter"] = wrong[:3]
-        col.outcome("mt_runs_where_train_st_returned_a_wrong_counter")
+        if not selftest:
+            col.outcome("mt_runs_where_train_st_returned_a_wrong_counter")
     if selftest:
         # oracle self-test: a deliberately defective trainer must show up as an overrun; nothing is reported
         col.tick(1)
@@ -743,6 +746,18 @@ def run_one(item, col, lengths, budget_cfg):
             d.update(extra)
         col.violation(SIG.format(entry, kind), d)
 
+    # (d) scheduler protocol inside train_active_mt (checked first: a violated protocol makes the selector raise)
+    if algo == "amt" and rec_log:
+        col.tick(1, key)
+        kinds_seq = [e[0] for e in rec_log]
+        if not all(k == ("select" if i % 2 == 0 else "feedback") for i, k in enumerate(kinds_seq)):
+            viol(K_PROTOCOL, dict(calls=rec_log[:20], error=err))
+            return
+        col.tick(1)
+        if any(e[0] == "select" and e[1] is not None and not (0 <= e[1] < n_tasks) for e in rec_log):
+            viol(K_INVALID, dict(calls=rec_log[:20]))
+            return
+        col.outcome("mt_amt_selector_calls_observed", len(rec_log))
     # (a) no crash, no step after an episode end / task switch without reset
     col.tick(1, key)
     if err == "step-after-end":
@@ -778,18 +793,6 @@ def run_one(item, col, lengths, budget_cfg):
         col.tick(1, key)
         if int(result.global_step) != executed and not (overrun and suffix):
             viol(K_RETURNED + suffix, dict(returned_global_step=int(result.global_step)))
-    # (d) scheduler protocol inside train_active_mt
-    if algo == "amt" and rec_log:
-        col.tick(1, key)
-        kinds_seq = [e[0] for e in rec_log]
-        alt = all(k == ("select" if i % 2 == 0 else "feedback") for i, k in enumerate(kinds_seq))
-        if not alt:
-            viol(K_PROTOCOL, dict(calls=rec_log[:20]))
-        bad = [e for e in rec_log if e[0] == "select" and not (0 <= int(e[1]) < n_tasks)]
-        col.tick(1)
-        if bad:
-            viol(K_INVALID, dict(calls=rec_log[:20]))
-        col.outcome("mt_amt_selector_calls_observed", len(rec_log))
     # outcomes: what kind of run this was
     if key is not None:
         col.outcome("mt_runs_nontrivial")
@@ -828,12 +831,13 @@ def _call_amt(task_set, train_st, budget, si, sel, n_tasks, seed, rec_log):
     cls, kw = active_mt.TASK_SELECTORS[sel]
 
     def _select(self):
+        rec_log.append(["select", None])  # the attempt is logged even when the selector rejects it
         out = cls.select(self)
-        rec_log.append(("select", int(out)))
+        rec_log[-1][1] = int(out)
         return out
 
     def _feedback(self, reward):
-        rec_log.append(("feedback", float(reward)))
+        rec_log.append(["feedback", float(reward)])
         return cls.feedback(self, reward)
 
     Rec = type("Recording" + cls.__name__, (cls,), {"select": _select, "feedback": _feedback})
